@@ -109,6 +109,14 @@ class World:
         self.tgt_freq = np.array([0.06, 0.12, 0.22, 0.33])
         self.tgt_dir = [0.0, 60.0, 120.0, 180.0, 240.0, 300.0]
         self.tmp = tempfile.mkdtemp(prefix="c17-", dir=os.path.join(BUILD, "traces"))
+        # a frequency-only (1-D) spectra dataset with instrument attributes, dask-backed in the dask variant
+        ds1 = xr.Dataset({"efth": (("time", "site", "freq"), base.sum(axis=-1) * 45.0)},
+                         coords={"time": ds.time.values, "site": np.arange(4), "freq": S.FREQ.copy()})
+        ds1.efth.attrs = {"instrument": "waverider 0042", "units": "m2 s"}
+        ds1.attrs = {"title": "1-D world"}
+        if variant["dask"]:
+            ds1 = ds1.chunk({"time": 1})
+        self.ds1d = ds1
         # in-memory datasets in the native layout of the model readers (what xr.open_dataset would hand to from_<model> / read_dataset)
         from harness.props import c12
         vec = {"F": [2, 3, 5, 7], "D": [0, 1440, 2880, 4320], "E": [[1, 2, 0, 3], [4, 0, 5, 1], [0, 6, 2, 2], [1, 1, 3, 0]]}
@@ -130,11 +138,11 @@ class World:
     def objects(self):
         return [self.ds, self.buffer, self.qlons_np, self.qlats_np, self.qlons_list, self.qlats_list, self.qlons_da, self.qlats_da,
                 self.dset_lons, self.dset_lats, self.bboxes, self.freq_kwargs, self.dir_kwargs, self.stats_dict, self.tgt_freq, self.tgt_dir,
-                self.native["ww3"], self.native["ncswan"], self.native["wwm"], self.native["era5"]]
+                self.native["ww3"], self.native["ncswan"], self.native["wwm"], self.native["era5"], self.ds1d]
 
     NAMES = ["dataset", "caller buffer", "query lons (ndarray)", "query lats (ndarray)", "query lons (list)", "query lats (list)",
              "query lons (DataArray)", "query lats (DataArray)", "dset_lons", "dset_lats", "bboxes list", "freq_kwargs", "dir_kwargs",
-             "stats dict", "target freq", "target dir list", "native WW3 dataset", "native SWAN-nc dataset", "native WWM dataset", "native ERA5 dataset"]
+             "stats dict", "target freq", "target dir list", "native WW3 dataset", "native SWAN-nc dataset", "native WWM dataset", "native ERA5 dataset", "1-D spectra dataset"]
 
 
 def ops_table():
@@ -181,6 +189,10 @@ def ops_table():
         "sel_exact_miss": lambda W: W.ds.spec.sel(W.qlons_np, W.qlats_np, method=None),
         "construct": lambda W: construct_partition("jonswap", "cartwright", W.freq_kwargs, W.dir_kwargs),
         "jonswap": lambda W: jonswap(freq=W.freq_kwargs["freq"], fp=0.1, hs=2.0),
+        "hs_1d": lambda W: W.ds1d.spec.hs(),
+        "tp_1d": lambda W: W.ds1d.efth.spec.tp(),
+        "stats_1d": lambda W: W.ds1d.spec.stats(["hs", "tm02"]),
+        "oned_1d": lambda W: W.ds1d.efth.spec.oned(),
         "from_ww3": lambda W: iww3.from_ww3(W.native["ww3"]),
         "from_ncswan": lambda W: incswan.from_ncswan(W.native["ncswan"]),
         "from_wwm": lambda W: iwwm.from_wwm(W.native["wwm"]),
@@ -210,7 +222,7 @@ def run(ctx):
     names = sorted(table)
     maxlen = 2
     q = "{" + ",".join('"%s"' % n for n in names) + "}"
-    cfg = ws.write_cfg("frame_%d.cfg" % maxlen, "SPECIFICATION Spec\nCONSTANTS OPS = %s\n NOBJ = 20\n MAXLEN = %d\nPROPERTY ArgsImmutable\nINVARIANT EmitInv\n" % (q, maxlen))
+    cfg = ws.write_cfg("frame_%d.cfg" % maxlen, "SPECIFICATION Spec\nCONSTANTS OPS = %s\n NOBJ = 21\n MAXLEN = %d\nPROPERTY ArgsImmutable\nINVARIANT EmitInv\n" % (q, maxlen))
     r = ctx.tlc("Frame", cfg, workers=4, label="programs of %d calls over %d operations" % (maxlen, len(names)))
     for inv in r.violated:
         if inv != "EmitInv":
